@@ -44,6 +44,16 @@ Definition r4 := build xH x_off (x_s BNormal "ca") [0; 1; 2] (br_world r1) (br_c
 Example ex_cache_off : br_status r4 = [TExecuted; TExecuted; TExecuted].
 Proof. vm_compute. auto. Qed.
 
+(* ... and the disabled cache is not written: the stored results and blobs are the ones the first build left
+   (three results, two blobs), so the next cached build serves a and b again (only the no-cache target runs) *)
+Example ex_cache_off_kept :
+  c_results (br_cache r4) = c_results (br_cache r1) /\ c_cas (br_cache r4) = c_cas (br_cache r1) /\
+  List.length (c_results (br_cache r1)) = 3 /\ List.length (c_cas (br_cache r1)) = 2.
+Proof. vm_compute. auto. Qed.
+Definition r4b := build xH x_all (x_s BNormal "ca") [0; 1; 2] (br_world r4) (br_cache r4).
+Example ex_after_cache_off : br_status r4b = [THit; THit; TExecuted] /\ br_exec r4b = [L "n"] /\ br_ok r4b = true.
+Proof. vm_compute. auto. Qed.
+
 (* the external condition a's output check inspects is destroyed: a is executed, not served *)
 Definition w_destroyed : world := mkWorld (w_ws (br_world r1)) [].
 Definition r5 := build xH x_all (x_s BNormal "ca") [0; 1; 2] w_destroyed (br_cache r1).
